@@ -41,7 +41,14 @@ Definition g_send_headers (extra : md) (g : gst) : gst :=
   else mkG (g_hdr g ++ extra) true (g_trl g) (g_hdr g ++ extra) (g_half g) (g_resp g) (g_over g).
 
 Definition g_step (sh : shape) (g : gst) (st : step) : gst * (list cobs * list sobs) :=
-  if g_over g then (g, stuck) else
+  if g_over g then
+    (* the call is over for the client; whatever the handler still does reaches nobody *)
+    match st with
+    | SetH _ | SendH _ | SetT _ | S2C _ | RecvEOF => (g, ([], []))
+    | Ret _ => (g, ((if is_invoke sh then [] else [CHdr (canon_md (if g_sent g then g_chdr g else [])); CTrl []]), []))
+    | _ => (g, stuck)
+    end
+  else
   match st with
   | C2S m => if g_half g then (g, stuck) else (g, ([CSent true], [SGot m]))
   | S2C m =>
@@ -73,6 +80,11 @@ Definition g_step (sh : shape) (g : gst) (st : step) : gst * (list cobs * list s
                     end in
       (mkG (g_hdr g1) true (g_trl g1) (g_chdr g1) (g_half g1) None true,
        (c ++ [CHdr (canon_md (g_chdr g1)); CTrl (canon_md (g_trl g))], []))
+  | CtxEnd dl =>
+      (mkG (g_hdr g) (g_sent g) (g_trl g) (g_chdr g) (g_half g) None true,
+       ([CEnd (if dl then ODeadline else OCancelled)]
+        ++ (if is_invoke sh then [CHdr (canon_md (if g_sent g then g_chdr g else [])); CTrl []] else []),
+        [SDone true]))
   | Cancel dl =>
       (* a deadline that expires on the client ends the call there with DeadlineExceeded; the server
          learns of either through a stream reset *)
